@@ -1047,7 +1047,7 @@ def replay(args, exe, scratch, emit):
         r = run_driver(exe, ["readhex " + data.hex()], scratch)[0]
         sys.stderr.write("gdstk read_oas:\n  %s\n" % json.dumps(r)[:6000])
     else:
-        sys.stderr.write("job: %s\n" % d2_job(case, os.path.join(scratch, "replay.oas")))
+        sys.stderr.write("job: %s\n" % (d2_history_job(case, os.path.join(scratch, "replay")) if "ops" in case else d2_job(case, os.path.join(scratch, "replay.oas"))))
     res = fn(space, [(g, i)], [case], exe, scratch)
     for v in res["violations"]:
         sys.stderr.write("VIOLATION %s/%s tags=%s\n  %s\n" % (v["sub_check"], v["class"], json.dumps(v["tags"]), v["detail"]))
@@ -1406,7 +1406,62 @@ class D2PropCounts(D2Space):
         return out
 
 
-D2_SPACES = [D2Shapes, D2Elements, D2PropCounts, D2Options]
+class D2History(D2Space):
+    """Save histories on ONE Library object: every written file must be true about itself."""
+    name = "d2.history"
+    LIBS = [
+        ("three_tops", ["cell ALPHA", "poly 1 0 0,0 0.004,0 0.004,0.002", "cell BETA", "poly 2 0 0,0 0.002,0.002 0,0.004", "label 1 1 0.001,0.001 6265",
+                        "cell GAMMA", "fpath 1 1 2 0,0 5,0 1 3 0 0.1 0 half 0 0"], ("ALPHA", "BETA", "GAMMA")),
+        ("two_tops_child", ["libprop user s:6b656570", "cell T1", "ref C 0.01,0 0 1 0", "poly 0 0 0,0 0.003,0 0,0.003", "cell T2", "poly 1 1 0,0 0.005,0 0.005,0.005 0,0.005",
+                            "prop keep u:3", "cell C", "poly 2 2 0,0 0.002,0 0.002,0.001 0,0.001", "rep rect 2 2 0.004 0.004"], ("T1", "T2", "C")),
+        ("two_tops_chain", ["cell T1", "ref MID 0,0 %s 1 0" % fnum(0.5 * math.pi), "cell T2", "ref LEAF 0.02,0.02 0 2 1", "label 0 0 0,0 7432",
+                            "cell MID", "ref LEAF 0.001,0.002 0 1 0", "rep exx 2 0.01 0.03", "cell LEAF", "poly 0 0 0,0 0.004,0 0.004,0.002 0,0.002"], ("T1", "T2", "LEAF")),
+    ]
+
+    def alphabet(self, lib, tier):
+        _, _, (a, b2, c) = lib
+        flags = (0x00, 0x02, 0x0F, 0x06, 0x09) if tier == "quick" else (0x00, 0x01, 0x02, 0x04, 0x08, 0x0F, 0x06, 0x09, 0x0F | 0x40)
+        ops = ["write %d %d" % (6 if k % 2 else 0, f) for k, f in enumerate(flags)]
+        ops += ["addref %s %s 0.05,0.05" % (a, b2), "rmcell %s" % c, "reload"]
+        return ops
+
+    def histories(self, lib, tier):
+        ops = self.alphabet(lib, tier)
+        out = []
+        for n in ((2, 3) if tier == "quick" else (2, 3, 4)):
+            for h in itertools.product(range(len(ops)), repeat=n):
+                names = [ops[k] for k in h]
+                nw = sum(1 for o in names if o.startswith("write"))
+                if nw == 0 or not names[-1].startswith("write"):
+                    continue  # a history is judged through the files it writes: it must end with a save
+                if names[0] == "reload" or any(names[k] == "reload" and not any(o.startswith("write") for o in names[:k]) for k in range(n)):
+                    continue  # nothing to load yet
+                if tier == "thorough" and n == 4 and nw > 3:
+                    continue
+                out.append(names)
+        return out
+
+    def ngroups(self, tier):
+        return len(self.LIBS) * 8
+
+    def describe(self, tier):
+        return ("%d libraries with 2-3 top cells x every history of length %s over {write_oas with property-flag sets %s, add a reference that demotes a top cell, take a cell out "
+                "of the library, read_oas the previous output and continue from it} that ends with a save (reload only after a save): every written file is decoded and its "
+                "S_TOP_CELL / S_BOUNDING_BOX / S_CELL_OFFSET / S_MAX_* / table offsets are checked against that file") % (
+                    len(self.LIBS), "2-3" if tier == "quick" else "2-4", "{0,2,15,6,9}" if tier == "quick" else "{0,1,2,4,8,15,6,9,15+CRC}")
+
+    def cases(self, g, tier):
+        lib = self.LIBS[g // 8]
+        hs = self.histories(lib, tier)
+        out = []
+        for k, h in enumerate(hs):
+            if k % 8 != g % 8:
+                continue
+            out.append({"cmds": lib[1], "ops": h, "tol": 0, "hints": {}, "label": {"library": lib[0], "history": " | ".join(h)}})
+        return out
+
+
+D2_SPACES = [D2Shapes, D2Elements, D2PropCounts, D2History, D2Options]
 
 
 # ---------------------------------------------------------------------------- direction 2: model of the saved library
@@ -1701,6 +1756,12 @@ def check_facts(layout, facts, model, case, src, model_equal=True):
         # not demanded by the property text: S_* named properties are recognised as standard regardless of the S bit
         out.append(("_sbit", {}, ",".join(sbit_clear)))
 
+    unrequested = {b"S_MAX_SIGNED_INTEGER_WIDTH": 1, b"S_MAX_UNSIGNED_INTEGER_WIDTH": 1, b"S_MAX_STRING_LENGTH": 1, b"S_POLYGON_MAX_VERTICES": 1, b"S_PATH_MAX_VERTICES": 1,
+                   b"S_TOP_CELL": 2, b"S_BOUNDING_BOXES_AVAILABLE": 4, b"S_BOUNDING_BOX": 4, b"S_CELL_OFFSET": 8}
+    allp = list(layout["props"]) + [p for c in layout["cells"] for p in c["name_props"] + c["props"]]
+    if any(p["name"] in unrequested and not flags & unrequested[p["name"]] for p in allp):
+        out.append(("_stale", {}, "S_* properties present although their flag was not requested (carried over from an earlier save / load)"))
+
     def single_uint(name):
         pl = fileprops.get(name, [])
         if len(pl) != 1 or len(pl[0]["values"]) != 1 or pl[0]["values"][0][0] != "uint":
@@ -1777,6 +1838,50 @@ def check_facts(layout, facts, model, case, src, model_equal=True):
     return out
 
 
+def d2_history_job(case, prefix):
+    return "history %s %s ; %s | %s" % (prefix, fnum(case["tol"]), " ; ".join(case["cmds"]), " | ".join(case["ops"]))
+
+
+def judge_written(space, case, data, src, err, flags, tol, viol, count, res):
+    """One file gdstk wrote: strict decode, compare with the dump of the library it was written from, check the facts."""
+    model = d2_model(src, case["hints"])
+    if err != 0:
+        viol("error_code", {"field": "error_code", "got": err}, "write_oas returned %d" % err)
+    try:
+        layout, facts = oc.decode(data, strict=False)
+    except oc.OasisError as e:
+        viol("decode_error", {"error": str(e).split(":")[0][:60]}, "strict decoder rejects the file: %s" % e)
+        res["outcomes"].add((space.name, "decode_error|" + str(e)[:40]))
+        return
+    count("nontrivial")
+    if facts["cblocks"]:
+        count("feature:cblock")
+    count("feature:table_ref")
+    u = float(oc.real_fraction(layout["unit"]))
+    want_u = 1e-6 / src["precision"]
+    if u != want_u:
+        viol("unit", {"field": "unit"}, "START unit %r, library has 1e-6/precision = %r" % (u, want_u))
+    mm = compare_decoded(model, layout, tol * model["scale"])
+    for cls, tags, detail in mm:
+        viol(cls, tags, detail)
+    ff = check_facts(layout, facts, model, {"flags": flags}, src, model_equal=not mm)
+    for cls, tags, detail in ff:
+        if cls == "_skip":
+            count("bbox_checks_skipped_not_exactly_computable")
+        elif cls == "_sbit":
+            count("stdprop_written_with_S_bit_clear")
+        elif cls == "_stale":
+            count("unrequested_stdprops_passed_through_from_loaded_library")
+        else:
+            viol(cls, tags, detail)
+    recs = sorted({rid for _, rid in facts["records"]})
+    real = [m[0] for m in mm + ff if not m[0].startswith("_")]
+    res["outcomes"].add((space.name, "%s|%d|%s" % (recs, facts["validation"][0], sorted(set(real)))))
+    if not real and not res["samples"]:
+        res["samples"].append({"sub_check": space.name, "case": {"library_commands": case["cmds"], "ops": case.get("ops"), "flags": flags, "records_in_file": recs,
+                                                                  "result": "strict decode equals the saved library; END/table offsets/signature/standard properties true"}})
+
+
 def exec_d2(space, ids, cases, exe, scratch):
     res = {"counters": {}, "violations": [], "samples": [], "outcomes": set()}
     cnt = res["counters"]
@@ -1784,76 +1889,62 @@ def exec_d2(space, ids, cases, exe, scratch):
     def count(k, n=1):
         cnt[k] = cnt.get(k, 0) + n
 
-    paths = [os.path.join(scratch, "d2.%d.oas" % k) for k in range(len(cases))]
-    results = run_driver(exe, [d2_job(c, p) for c, p in zip(cases, paths)], scratch)
+    paths = [os.path.join(scratch, "d2.%d" % k) for k in range(len(cases))]
+    jobs = [d2_history_job(c, p) if "ops" in c else d2_job(c, p + ".oas") for c, p in zip(cases, paths)]
+    results = run_driver(exe, jobs, scratch)
     for (g, i), case, path, r in zip(ids, cases, paths, results):
         if r is not None and r.get("not_executed"):
             count("cases_not_executed_after_repeated_crashes")
             res["incomplete"] = True
             continue
-        count("cases")
-        count("cases:" + space.name)
         replay = "sub=%s g=%d i=%d" % (space.name, g, i)
         tags0 = {k: (v if isinstance(v, int) else str(v)) for k, v in case["label"].items()}
         tags0["ref_to_cell_outside_library"] = int(bool(case["hints"].get("outside_pointer")))
-        data = b""
-        if os.path.exists(path):
-            with open(path, "rb") as f:
-                data = f.read()
-            os.unlink(path)
-        cj = {"library_commands": case["cmds"], "level": case["level"], "flags": case["flags"], "circle_tolerance": case["tol"], "hex": data.hex() if len(data) < 1500 else data[:1500].hex() + "..."}
+        cj = {"library_commands": case["cmds"]}
+        if "ops" in case:
+            cj["ops"] = case["ops"]
 
-        def viol(cls, tags, detail):
+        def viol(cls, tags, detail, extra_tags=None, extra_case=None):
             key = "viol:%s/%s" % (space.name, cls)
             count(key)
             if cnt[key] <= CAP:
                 t = dict(tags0)
+                t.update(extra_tags or {})
                 t.update({k: (v if isinstance(v, int) else str(v)) for k, v in tags.items()})
-                res["violations"].append({"sub_check": space.name, "class": cls, "tags": t, "case": cj, "detail": detail[:1200], "replay_args": replay})
+                res["violations"].append({"sub_check": space.name, "class": cls, "tags": t, "case": dict(cj, **(extra_case or {})), "detail": detail[:1200], "replay_args": replay})
 
         if r is None or "crash" in r:
+            count("cases")
+            count("cases:" + space.name)
             text = (r or {}).get("crash", "no result")
             viol("crash:" + crash_class(text), {"crash": crash_class(text)}, text[:1500])
+            for k in range(8):
+                if os.path.exists("%s.%d.oas" % (path, k)):
+                    os.unlink("%s.%d.oas" % (path, k))
             continue
-        if r.get("kind") != "write":
-            res.setdefault("internal", []).append("driver answered %r for %r" % (r, d2_job(case, path)[:300]))
+        if r.get("kind") == "write":
+            writes = [{"path": path + ".oas", "level": case["level"], "flags": case["flags"], "err": r["err"], "src": r["src"]}]
+        elif r.get("kind") == "history":
+            writes = r["writes"]
+            count("histories")
+        else:
+            res.setdefault("internal", []).append("driver answered %r for %r" % (r, jobs[0][:300]))
             continue
-        model = d2_model(r["src"], case["hints"])
-        absent = set(case["hints"].get("absent", []))
-        want_err = 0
-        if r["err"] != want_err:
-            viol("error_code", {"field": "error_code", "got": r["err"]}, "write_oas returned %d" % r["err"])
-        try:
-            layout, facts = oc.decode(data, strict=False)
-        except oc.OasisError as e:
-            viol("decode_error", {"error": str(e).split(":")[0][:60]}, "strict decoder rejects the file: %s" % e)
-            res["outcomes"].add((space.name, "decode_error|" + str(e)[:40]))
-            continue
-        count("nontrivial")
-        if facts["cblocks"]:
-            count("feature:cblock")
-        count("feature:table_ref")
-        u = float(oc.real_fraction(layout["unit"]))
-        want_u = 1e-6 / r["src"]["precision"]
-        if u != want_u:
-            viol("unit", {"field": "unit"}, "START unit %r, library has 1e-6/precision = %r" % (u, want_u))
-        mm = compare_decoded(model, layout, case["tol"] * model["scale"])
-        for cls, tags, detail in mm:
-            viol(cls, tags, detail)
-        ff = check_facts(layout, facts, model, case, r["src"], model_equal=not mm)
-        for cls, tags, detail in ff:
-            if cls == "_skip":
-                count("bbox_checks_skipped_not_exactly_computable")
-                continue
-            if cls == "_sbit":
-                count("stdprop_written_with_S_bit_clear")
-                continue
-            viol(cls, tags, detail)
-        recs = sorted({rid for _, rid in facts["records"]})
-        res["outcomes"].add((space.name, "%s|%d|%s" % (recs, facts["validation"][0], sorted({m[0] for m in mm + ff if not m[0].startswith("_")}))))
-        if not mm and not [f for f in ff if not f[0].startswith("_")] and not res["samples"]:
-            res["samples"].append({"sub_check": space.name, "case": {"library_commands": case["cmds"], "level": case["level"], "flags": case["flags"], "records_in_file": recs,
-                                                                      "result": "strict decode equals the saved library; END/table offsets/signature/standard properties true"}})
+        for wi, w in enumerate(writes):
+            count("cases")
+            count("cases:" + space.name)
+            data = b""
+            if os.path.exists(w["path"]):
+                with open(w["path"], "rb") as f:
+                    data = f.read()
+                os.unlink(w["path"])
+            ec = {"level": w["level"], "flags": w["flags"], "circle_tolerance": case["tol"], "hex": data.hex() if len(data) < 1500 else data[:1500].hex() + "..."}
+            et = {}
+            if "ops" in case:
+                et = {"write_index": wi, "flags": w["flags"], "level": w["level"], "ops_done": ",".join(r.get("ops", []))}
+                ec["file_of_write"] = wi
+            judge_written(space, case, data, w["src"], w["err"], w["flags"], case["tol"],
+                          lambda cls, tags, detail, et=et, ec=ec: viol(cls, tags, detail, et, ec), count, res)
     return res
 
 
